@@ -214,6 +214,46 @@ class Contract:
         if returns_self:
             return post_env["self"]
         if memo_key is not None:
+            # congruence with earlier calls whose arguments are not the same terms but may be equal values (for instance
+            # `xs[i]` written in the code with python's negative-index normalisation and without it in a specification)
+            try:
+                rl = V.leaves_of(result) if result is not None else []
+                for key, val in memo_key[0]:
+                    vl = V.leaves_of(val) if val is not None else []
+                    if len(key) != len(memo_key[1]) or len(vl) != len(rl) or not rl:
+                        continue
+                    if V.sig_of(val) != V.sig_of(result):
+                        continue
+                    eqs, ok = [], True
+                    for x, y in zip(key, memo_key[1]):
+                        if (x is y) or (is_sym(x) and is_sym(y) and x.eq(y)):
+                            continue
+                        if is_sym(x) or is_sym(y):
+                            xs, ys = to_z3(x), to_z3(y)
+                            if xs.sort() != ys.sort():
+                                ok = False
+                                break
+                            eqs.append(xs == ys)
+                        elif x != y:
+                            ok = False
+                            break
+                    if not ok:
+                        continue
+                    outs = []
+                    for x, y in zip(vl, rl):
+                        if is_sym(x) or is_sym(y):
+                            xs, ys = to_z3(x), to_z3(y)
+                            if xs.sort() != ys.sort():
+                                ok = False
+                                break
+                            outs.append(xs == ys)
+                        elif x != y:
+                            ok = False
+                            break
+                    if ok and outs:
+                        st.assume(z3.Implies(b_and(*eqs) if eqs else True, b_and(*outs)))
+            except Outside:
+                pass
             memo_key[0].append((memo_key[1], result))
         return result
 
